@@ -88,7 +88,8 @@ def parse(out):
         elif l.startswith("M "):
             f = [t.strip() for t in l.split("|")]
             h = f[0].split()
-            r = {"algo": h[1], "bounded": int(h[2]), "prob": h[3], "n": int(h[4]), "case": h[5], "how": f[-1], "line": l[:600], "P": pline, "Q": q if h[3] in "qt" else None}
+            r = {"algo": h[1], "bounded": int(h[2]), "prob": h[3], "n": int(h[4]), "case": h[5], "how": f[-1], "line": l[:600], "P": pline, "Q": q if h[3] in "qt" else None,
+                 "mls": (int(pline.split("|")[0].split()[9]) if pline and len(pline.split("|")[0].split()) > 9 else 10)}
             pline = None
             if r["how"] == "ok" and not f[1].startswith("EXC") and not f[1].startswith("-"):
                 r["status"], r["it"], r["maxit"], r["samples"] = map(int, f[1].split())
@@ -148,8 +149,8 @@ def c18_checks(run, runs, xs, args):
 
 def c19_checks(run, runs, args, stats):
     for r in runs:
-        if r.get("Q") is None or "status" not in r or r["maxit"] != 200:
-            continue
+        if r.get("Q") is None or "status" not in r or r["maxit"] != 200 or r.get("mls", 10) != 10:
+            continue          # default line-search budget only: with a limit of 2 iterations giving up is the documented outcome
         run.coverage["evaluations"] += 1
         q = r["Q"]
         pay = {"harness_args": args, "case": r["case"], "algo": r["algo"], "line": r["line"]}
@@ -180,7 +181,8 @@ def correspondence(run, runs, args, stats):
     """every run for which the harness printed a P line (Levenberg family; conjugate gradient; bounded L-BFGS): the extracted
     model of that driver on doubles against the implementation"""
     model = os.path.join(C.OCAML, "driver_c18.exe")
-    lm = [r for r in runs if r.get("P") and "status" in r and "E" in r]
+    # runs with a line-search iteration limit of 2 (the search gives up) are checked against the property oracles only
+    lm = [r for r in runs if r.get("P") and "status" in r and "E" in r and r.get("mls", 10) == 10]
     if not lm:
         return
 
@@ -349,7 +351,7 @@ def check(run, replay=None, cid="C18"):
     cov["rule"] = ("harness arguments %s (largest dimension, box variants, seed): for each dimension and box variant (wide, tight around part of the solution, one-sided, tiny) "
                    "problems q (random SPD quadratic), r (Rosenbrock chain), l (quadratic minus logs, non-finite outside its domain), t (separable quadratic whose step from the "
                    "origin meets several faces at the same or nearly the same fraction) x 5 algorithms x {unbounded, bounded} x starts (inside, on faces, outside above, mixed outside, origin) "
-                   "x settings (max iterations 5/40/200, threshold 1e-6/1e-3, max step, ensure_updated_state).  %s" % (
+                   "x settings (max iterations 5/40/200, threshold 1e-6/1e-3, max step, ensure_updated_state, line-search iteration limit 10 or 2).  %s" % (
                        arglist if len(arglist) < 9 else "%s ... (%d invocations)" % (arglist[:3], len(arglist)),
                        "Checked per run: every call-back argument and the returned state inside the box (exact), reported cost = cost at returned x, <= cost at the projected start, "
                        "SUCCESS => gradient norm over components not pinned by sign <= threshold, iterations <= maximum, return within 10 s, statuses for invalid bounds / NaN cost."
